@@ -216,9 +216,26 @@ pub fn run_base(slots: &mut Vec<Option<Unimock>>, unwinding: bool, base: &Base) 
                 return "invalid".into();
             }
             let u = slots[i].take().unwrap();
-            obs(catch_unwind(AssertUnwindSafe(move || u.verify())), |()| {
-                "ok".into()
-            })
+            if unwinding {
+                // verify() called from a scope guard while the thread unwinds (fixture pattern)
+                struct Guard(Option<Unimock>);
+                impl Drop for Guard {
+                    fn drop(&mut self) {
+                        self.0.take().unwrap().verify();
+                    }
+                }
+                obs(
+                    catch_unwind(AssertUnwindSafe(move || {
+                        let _guard = Guard(Some(u));
+                        panic!("user");
+                    })),
+                    |()| "ok".into(),
+                )
+            } else {
+                obs(catch_unwind(AssertUnwindSafe(move || u.verify())), |()| {
+                    "ok".into()
+                })
+            }
         }
         Base::Nvid(i) => {
             if !alive(slots, i) {
